@@ -1,0 +1,401 @@
+// Verification hooks (compiled only with `--cfg slawlor_ractor_verif`).
+//
+// Drives the real post-authentication handlers of `NodeSession` (node messages, control
+// messages, lifecycle supervision events, the initial synchronisation) on a real
+// `NodeSessionState` without a network: the TCP actor is a recorder of the frames the session
+// writes, the session actor itself is a recorder whose queued messages and supervision events
+// are fed to the real handlers by `pump`. Frames are exchanged as plain data. No logic lives here.
+
+//! Verification hooks for remote-actor handling in the node session (only with `--cfg slawlor_ractor_verif`).
+
+use std::collections::{HashMap, HashSet};
+use std::net::SocketAddr;
+use std::sync::{Arc, Mutex};
+use std::time::Instant;
+
+use ractor::{Actor, ActorCell, ActorProcessingErr, ActorRef, SupervisionEvent};
+
+use super::{
+    auth, control_protocol, node_protocol, AuthenticationState, NodeSession, NodeSessionState,
+    PongWarnings, ReadyState, SessionMessage,
+};
+use crate::node::{NodeConnectionMode, NodeServerMessage, NodeSessionMessage};
+use crate::protocol::meta::network_message::Message as Net;
+use crate::protocol::NetworkMessage;
+
+/// A post-authentication frame in plain form.
+#[derive(Debug, Clone, PartialEq, Eq)]
+pub enum VFrame {
+    /// `node.proto` Cast
+    Cast {
+        /// target pid
+        to: u64,
+        /// variant
+        variant: String,
+        /// argument bytes
+        what: Vec<u8>,
+    },
+    /// `node.proto` Call
+    Call {
+        /// target pid
+        to: u64,
+        /// request tag
+        tag: u64,
+        /// variant
+        variant: String,
+        /// argument bytes
+        what: Vec<u8>,
+        /// timeout
+        timeout_ms: Option<u64>,
+    },
+    /// `node.proto` CallReply
+    Reply {
+        /// pid of the replying actor
+        to: u64,
+        /// request tag
+        tag: u64,
+        /// reply bytes
+        what: Vec<u8>,
+    },
+    /// `control.proto` Spawn
+    Spawn(Vec<u64>),
+    /// `control.proto` Terminate
+    Terminate(Vec<u64>),
+    /// `control.proto` PgJoin (scope, group, pids)
+    PgJoin(String, String, Vec<u64>),
+    /// `control.proto` PgLeave (scope, group, pids)
+    PgLeave(String, String, Vec<u64>),
+    /// `control.proto` Ready
+    Ready,
+    /// anything else (auth, ping, pong, ...)
+    Other,
+}
+
+fn to_net(f: VFrame) -> NetworkMessage {
+    use control_protocol::control_message::Msg as C;
+    use node_protocol::node_message::Msg as N;
+    let actors = |pids: Vec<u64>| {
+        pids.into_iter()
+            .map(|pid| control_protocol::Actor { pid, name: None })
+            .collect::<Vec<_>>()
+    };
+    let node = |m| Net::Node(node_protocol::NodeMessage { msg: Some(m) });
+    let ctl = |m| Net::Control(control_protocol::ControlMessage { msg: Some(m) });
+    let message = match f {
+        VFrame::Cast { to, variant, what } => node(N::Cast(node_protocol::Cast {
+            to,
+            what,
+            variant,
+            metadata: None,
+        })),
+        VFrame::Call {
+            to,
+            tag,
+            variant,
+            what,
+            timeout_ms,
+        } => node(N::Call(node_protocol::Call {
+            to,
+            tag,
+            what,
+            timeout_ms,
+            variant,
+            metadata: None,
+        })),
+        VFrame::Reply { to, tag, what } => {
+            node(N::Reply(node_protocol::CallReply { to, tag, what }))
+        }
+        VFrame::Spawn(pids) => ctl(C::Spawn(control_protocol::Spawn {
+            actors: actors(pids),
+        })),
+        VFrame::Terminate(ids) => ctl(C::Terminate(control_protocol::Terminate { ids })),
+        VFrame::PgJoin(scope, group, pids) => ctl(C::PgJoin(control_protocol::PgJoin {
+            group,
+            actors: actors(pids),
+            scope,
+        })),
+        VFrame::PgLeave(scope, group, pids) => ctl(C::PgLeave(control_protocol::PgLeave {
+            group,
+            actors: actors(pids),
+            scope,
+        })),
+        VFrame::Ready | VFrame::Other => ctl(C::Ready(control_protocol::Ready {})),
+    };
+    NetworkMessage {
+        message: Some(message),
+    }
+}
+
+fn node_to_v(m: node_protocol::NodeMessage) -> VFrame {
+    use node_protocol::node_message::Msg as N;
+    match m.msg {
+        Some(N::Cast(c)) => VFrame::Cast {
+            to: c.to,
+            variant: c.variant,
+            what: c.what,
+        },
+        Some(N::Call(c)) => VFrame::Call {
+            to: c.to,
+            tag: c.tag,
+            variant: c.variant,
+            what: c.what,
+            timeout_ms: c.timeout_ms,
+        },
+        Some(N::Reply(r)) => VFrame::Reply {
+            to: r.to,
+            tag: r.tag,
+            what: r.what,
+        },
+        None => VFrame::Other,
+    }
+}
+
+fn from_net(m: NetworkMessage) -> VFrame {
+    use control_protocol::control_message::Msg as C;
+    let pids = |a: Vec<control_protocol::Actor>| a.into_iter().map(|x| x.pid).collect::<Vec<_>>();
+    match m.message {
+        Some(Net::Node(n)) => node_to_v(n),
+        Some(Net::Control(c)) => match c.msg {
+            Some(C::Spawn(s)) => VFrame::Spawn(pids(s.actors)),
+            Some(C::Terminate(t)) => VFrame::Terminate(t.ids),
+            Some(C::PgJoin(j)) => VFrame::PgJoin(j.scope, j.group, pids(j.actors)),
+            Some(C::PgLeave(l)) => VFrame::PgLeave(l.scope, l.group, pids(l.actors)),
+            Some(C::Ready(_)) => VFrame::Ready,
+            _ => VFrame::Other,
+        },
+        _ => VFrame::Other,
+    }
+}
+
+#[derive(Clone, Default)]
+struct Wire(Arc<Mutex<Vec<NetworkMessage>>>);
+
+struct WireSink(Wire);
+
+#[cfg_attr(feature = "async-trait", ractor::async_trait)]
+impl Actor for WireSink {
+    type Msg = SessionMessage;
+    type State = ();
+    type Arguments = ();
+    async fn pre_start(&self, _: ActorRef<Self::Msg>, _: ()) -> Result<(), ActorProcessingErr> {
+        Ok(())
+    }
+    async fn handle(
+        &self,
+        _: ActorRef<Self::Msg>,
+        message: Self::Msg,
+        _: &mut Self::State,
+    ) -> Result<(), ActorProcessingErr> {
+        if let SessionMessage::Send(frame) = message {
+            self.0 .0.lock().unwrap().push(frame);
+        }
+        Ok(())
+    }
+}
+
+enum Queued {
+    Msg(NodeSessionMessage),
+    Evt(SupervisionEvent),
+}
+
+#[derive(Clone, Default)]
+struct Inbox(Arc<Mutex<Vec<Queued>>>);
+
+/// Stands in for the session actor: queues what arrives at its two ports.
+struct SessionStub(Inbox);
+
+#[cfg_attr(feature = "async-trait", ractor::async_trait)]
+impl Actor for SessionStub {
+    type Msg = NodeSessionMessage;
+    type State = ();
+    type Arguments = ();
+    async fn pre_start(&self, _: ActorRef<Self::Msg>, _: ()) -> Result<(), ActorProcessingErr> {
+        Ok(())
+    }
+    async fn handle(
+        &self,
+        _: ActorRef<Self::Msg>,
+        message: Self::Msg,
+        _: &mut Self::State,
+    ) -> Result<(), ActorProcessingErr> {
+        self.0 .0.lock().unwrap().push(Queued::Msg(message));
+        Ok(())
+    }
+    async fn handle_supervisor_evt(
+        &self,
+        _: ActorRef<Self::Msg>,
+        message: SupervisionEvent,
+        _: &mut Self::State,
+    ) -> Result<(), ActorProcessingErr> {
+        self.0 .0.lock().unwrap().push(Queued::Evt(message));
+        Ok(())
+    }
+}
+
+struct ServerStub;
+
+#[cfg_attr(feature = "async-trait", ractor::async_trait)]
+impl Actor for ServerStub {
+    type Msg = NodeServerMessage;
+    type State = ();
+    type Arguments = ();
+    async fn pre_start(&self, _: ActorRef<Self::Msg>, _: ()) -> Result<(), ActorProcessingErr> {
+        Ok(())
+    }
+}
+
+/// A real `NodeSession` handler object with a real, authenticated and ready `NodeSessionState`.
+#[allow(missing_debug_implementations)]
+pub struct VerifRemoteSession {
+    session: NodeSession,
+    state: NodeSessionState,
+    myself: ActorRef<NodeSessionMessage>,
+    server: ActorRef<NodeServerMessage>,
+    sink: ActorRef<SessionMessage>,
+    wire: Wire,
+    inbox: Inbox,
+}
+
+impl VerifRemoteSession {
+    /// Build the session (client side, authenticated, ready) with the given node id.
+    pub async fn new(node_id: u64) -> Self {
+        let wire = Wire::default();
+        let inbox = Inbox::default();
+        let (sink, _) = Actor::spawn(None, WireSink(wire.clone()), ())
+            .await
+            .expect("wire sink");
+        let (myself, _) = Actor::spawn(None, SessionStub(inbox.clone()), ())
+            .await
+            .expect("session stub");
+        let (server, _) = Actor::spawn(None, ServerStub, ()).await.expect("server stub");
+        let session = NodeSession {
+            node_id,
+            is_server: false,
+            cookie: "cookie".to_string(),
+            node_server: server.clone(),
+            this_node_name: super::auth_protocol::NameMessage {
+                name: "verif@here".to_string(),
+                flags: None,
+                connection_string: "here:0".to_string(),
+                connection_id: 0,
+            },
+            connection_mode: NodeConnectionMode::Isolated,
+            max_inbound_frame_size: super::super::DEFAULT_MAX_INBOUND_FRAME_SIZE,
+            connection_id: 0,
+        };
+        let unspecified = SocketAddr::from(([0, 0, 0, 0], 0));
+        let state = NodeSessionState {
+            tcp: Some(sink.clone()),
+            ping_task: None,
+            peer_addr: unspecified,
+            local_addr: unspecified,
+            epoch: Instant::now(),
+            pong_warnings: PongWarnings::default(),
+            name: Some(super::auth_protocol::NameMessage {
+                name: "peer@there".to_string(),
+                flags: None,
+                connection_string: "there:0".to_string(),
+                connection_id: 0,
+            }),
+            connection_id: 0,
+            auth: AuthenticationState::AsClient(auth::ClientAuthenticationProcess::Ok),
+            ready: ReadyState::Open,
+            remote_actors: HashMap::new(),
+            advertised_local_pids: HashSet::new(),
+        };
+        Self {
+            session,
+            state,
+            myself,
+            server,
+            sink,
+            wire,
+            inbox,
+        }
+    }
+
+    /// The real `after_authenticated`: monitors pids and groups, advertises what exists, sends Ready.
+    pub fn sync(&mut self) {
+        self.session
+            .after_authenticated(self.myself.clone(), &mut self.state);
+    }
+
+    /// Run the real `Actor::handle` on `MessageReceived(frame)`.
+    pub async fn receive(&mut self, frame: VFrame) -> bool {
+        self.session
+            .handle(
+                self.myself.clone(),
+                NodeSessionMessage::MessageReceived(to_net(frame)),
+                &mut self.state,
+            )
+            .await
+            .is_ok()
+    }
+
+    /// Feed everything queued at the session's ports (supervision events first) to the real
+    /// `handle_supervisor_evt` / `handle`; returns how many items were processed.
+    pub async fn pump(&mut self) -> usize {
+        let mut n = 0;
+        loop {
+            let mut items = std::mem::take(&mut *self.inbox.0.lock().unwrap());
+            if items.is_empty() {
+                return n;
+            }
+            items.sort_by_key(|q| matches!(q, Queued::Msg(_)));
+            for q in items {
+                n += 1;
+                match q {
+                    Queued::Evt(e) => {
+                        let _ = self
+                            .session
+                            .handle_supervisor_evt(self.myself.clone(), e, &mut self.state)
+                            .await;
+                    }
+                    Queued::Msg(m) => {
+                        let _ = self
+                            .session
+                            .handle(self.myself.clone(), m, &mut self.state)
+                            .await;
+                    }
+                }
+            }
+        }
+    }
+
+    /// Frames the session wrote to its TCP actor since the last call.
+    pub fn take_sent(&self) -> Vec<VFrame> {
+        std::mem::take(&mut *self.wire.0.lock().unwrap())
+            .into_iter()
+            .map(from_net)
+            .collect()
+    }
+
+    /// `remote_actors`: pid and cell of each proxy.
+    pub fn proxies(&self) -> Vec<(u64, ActorCell)> {
+        self.state
+            .remote_actors
+            .iter()
+            .map(|(pid, a)| (*pid, a.get_cell()))
+            .collect()
+    }
+
+    /// `advertised_local_pids`
+    pub fn advertised(&self) -> Vec<u64> {
+        self.state.advertised_local_pids.iter().copied().collect()
+    }
+
+    /// The session actor's cell (the proxies' supervisor).
+    pub fn cell(&self) -> ActorCell {
+        self.myself.get_cell()
+    }
+
+    /// Stop the session actor (its children, the proxies, go with it) and the helpers.
+    pub async fn shutdown(mut self) {
+        if let Some(mut t) = self.state.ping_task.take() {
+            t.abort();
+        }
+        let _ = self.myself.stop_and_wait(None, None).await;
+        let _ = self.sink.stop_and_wait(None, None).await;
+        let _ = self.server.stop_and_wait(None, None).await;
+    }
+}
